@@ -106,8 +106,11 @@ class Gen:
             a = r.choice(["a", "world", "users:001", "a-b_c:D-9", "x:y:z", "W0rld"])
             return lambda p: self._leaf(p, "@" + a, lambda R: "(acct %s %s)" % (R, enc(a)))
         if k == "num":
-            n = r.choice([0, 1, 42, -7, 9007199254740993, -1, 10])
-            return lambda p: self._leaf(p, str(n), lambda R: "(num %s %d)" % (R, n))
+            # decimal numerals in every spelling: leading zeros, signed zero, digits 8 and 9 after a leading zero
+            t = r.choice(["0", "1", "42", "-7", "9007199254740993", "-1", "10", "010", "0100", "-010", "08", "09", "007",
+                          "00", "-0", "0777", "9223372036854775807", "-9223372036854775808"])
+            n = int(t)
+            return lambda p: self._leaf(p, t, lambda R: "(num %s %d)" % (R, n))
         if k == "ratio":
             a, b = r.choice([("1", "2"), ("0", "1"), ("01", "010"), ("3", "3"), ("7", "0"), ("123456789012345678901", "999999999999999999999")])
             spl, spr = r.choice(["", " "]), r.choice(["", " "])
